@@ -66,8 +66,24 @@ func verifDecode(body string) (out string, valid bool) {
 				}
 				r = r*16 + h
 			}
+			if r >= 0xD800 && r <= 0xDBFF && i+11 < len(body) && body[i+6] == '\\' && body[i+7] == 'u' {
+				// a surrogate pair spells one character beyond the basic plane
+				low := 0
+				for k := 8; k < 12; k++ {
+					h, ok := verifHex(body[i+k])
+					if !ok {
+						return "", false
+					}
+					low = low*16 + h
+				}
+				if low >= 0xDC00 && low <= 0xDFFF {
+					b = utf8.AppendRune(b, rune(0x10000+(r-0xD800)*0x400+(low-0xDC00)))
+					i += 12
+					continue
+				}
+			}
 			if r >= 0xD800 && r <= 0xDFFF {
-				return "", false // surrogates are not characters
+				return "", false // a lone surrogate is not a character
 			}
 			b = utf8.AppendRune(b, rune(r))
 			i += 6
@@ -125,5 +141,20 @@ func VerifHarness_C15_AdjacentEscapes() {
 	verifrt.Assume(valid)
 	got, err := ParseString("'" + body + "'")
 	verifrt.Assert(err == nil && string(got) == want, "adjacent-escapes-decode-independently")
+	verifrt.Reach("end")
+}
+
+// C15-L1 (characters beyond the basic plane): the pair \uD8xx..\uDBxx \uDCxx..\uDFxx denotes the one character it
+// spells (the only way to write such a character with escapes), followed by an ordinary character.
+func VerifHarness_C15_SurrogatePairEscape() {
+	// one hexadecimal digit of the low half is symbolic, the others come from menus (more symbolic digits through two
+	// ParseUint calls and the four-byte encoding do not finish within the quick solver budget: 150 s unknown)
+	hi := []string{"D800", "d83D", "DAff", "dBFF"}[verifrt.Choose("hi", 4)]
+	lo := []string{"DC", "dd", "DE", "dF"}[verifrt.Choose("lo", 4)] + verifrt.NondetStringN("lo2", 1) + []string{"0", "A", "f"}[verifrt.Choose("lo3", 3)]
+	body := "\\u" + hi + "\\u" + lo + []string{"", "x"}[verifrt.Choose("tail", 2)]
+	want, valid := verifDecode(body)
+	verifrt.Assume(valid)
+	got, err := ParseString("'" + body + "'")
+	verifrt.Assert(err == nil && string(got) == want, "surrogate-pair-decodes-to-one-character")
 	verifrt.Reach("end")
 }
